@@ -21,6 +21,7 @@ import errno
 import io
 import json
 import os
+import stat
 import tempfile
 from abc import ABC, abstractmethod
 from typing import TYPE_CHECKING, Any, Dict, List, Optional, Tuple
@@ -341,9 +342,19 @@ class LocalStorageBackend(StorageBackend):
         directory.
         """
         full_path = self._resolve_path(path)
-        if os.path.isdir(full_path):
+        # os.path.exists()/isdir() swallow EVERY OSError and answer False. A
+        # transient EIO/EACCES on the version hint or the current metadata file
+        # then read as "absent" and sent readers, committers and the garbage
+        # collector into recovery-by-scan, which trusts the highest version on
+        # disk - possibly a crashed writer's never-committed metadata file.
+        # Only "not there" is False; any other failure propagates (as on S3).
+        try:
+            st = os.stat(full_path)
+        except (FileNotFoundError, NotADirectoryError):
+            return False
+        if stat.S_ISDIR(st.st_mode):
             return path.endswith("/") or path.endswith(os.sep)
-        return os.path.exists(full_path)
+        return True
 
     def list_files(self, prefix: str) -> List[str]:
         """List files under `prefix`, as paths relative to the table root.
